@@ -2,6 +2,8 @@ import DoviModel.Model.Av1
 import DoviModel.Proofs.Bits
 import DoviModel.Proofs.NoPanic
 import DoviModel.Proofs.NoPanic2
+import DoviModel.Proofs.PanicSites
+import DoviModel.Props.C03
 /-! # C08 — parsing untrusted bytes always returns (model theorems; extended in Proofs/NoPanic.lean) -/
 namespace Dovi.C08
 open Dovi
@@ -22,14 +24,17 @@ theorem parseRpu_short_is_error (data : Bytes) (h : data.length - trailingZeroes
 theorem trimPrefix_short (data : Bytes) (h : data.length < 25) : trimPrefix data = .error := by
   simp [trimPrefix, h]
 
-/-- **no panic outside the two third-party exp-Golomb sites.** `Good` = the syntax bits contain no run of 63
+/-- (WEAKER, global-hypothesis version of `parse_panic_only_at_ue` below: `Good` fails for practically every real
+RPU, see `ordinary_not_Good`; kept because it is implied by the positional theorem, `good_implies_no_site`.)
+**no panic outside the two third-party exp-Golomb sites.** `Good` = the syntax bits contain no run of 63
 zero bits; both third-party panics (`get_ue` with 64 leading zeros, `get_se` at `i64::MIN`) need such a run.
 On every other input the model of `DoviRpu::parse` returns a value or an error. -/
 theorem parse_no_panic (data : Bytes)
     (hg : Good (bytesToBits (data.take (data.length - trailingZeroes data)))) : parseRpu data ≠ .panic :=
   parseRpu_no_panic data hg
 
-/-- the raw entry point (`parse_rpu`): prefix trimming cannot panic either -/
+/-- (weaker, global-hypothesis version of `parse_entry_panic_only_at_ue`) the raw entry point (`parse_rpu`):
+prefix trimming cannot panic either -/
 theorem parse_entry_no_panic (data t : Bytes) (ht : trimPrefix data = .ok t)
     (hg : Good (bytesToBits (t.take (t.length - trailingZeroes t)))) : parseRpuEntry data ≠ .panic := by
   simp [parseRpuEntry, ht, Res.bind]
@@ -57,29 +62,177 @@ example : Good (bytesToBits [25, 8, 9, 8, 64, 97, 54, 80]) := by decide
 theorem av1_unwrap_never_panics (data : Bytes) : Av1.unwrap data ≠ .panic :=
   Av1.unwrap_never_panics data
 
-/-- the AV1 entry point panics only where the RPU parser does (third-party exp-Golomb sites) -/
+/-- (weaker, global-hypothesis version of `av1_panic_only_at_ue`) the AV1 entry point panics only where the RPU
+parser does (third-party exp-Golomb sites) -/
 theorem av1_parse_no_panic (data : Bytes)
     (hg : ∀ b, Av1.unwrap data = .ok b → Good (bytesToBits (b.take (b.length - trailingZeroes b)))) :
     Av1.parseObu data ≠ .panic :=
   Av1.parseObu_no_panic data hg
 
-/-- the HEVC NAL entry point (prefix trimming + emulation-prevention removal + parse) -/
+/-- (weaker, global-hypothesis version of `nalu_panic_only_at_ue`) the HEVC NAL entry point (prefix trimming +
+emulation-prevention removal + parse) -/
 theorem nalu_parse_no_panic (d : Bytes)
     (hg : ∀ t, trimPrefix d = .ok t →
       Good (bytesToBits ((Esc.unescape t).take ((Esc.unescape t).length - trailingZeroes (Esc.unescape t))))) :
     parseNalu d ≠ .panic :=
   parseNalu_no_panic d hg
 
-/-- the RPU file reader, for every read chunk size: it panics only if the NAL parser panics on a slice of the
-file (the chunk loop, its carry-over and its slicing arithmetic cannot panic) -/
+/-- (see `rpu_file_panic_only_at_ue` for the composed, positional version) the RPU file reader, for every read
+chunk size: it panics only if the NAL parser panics on a slice of the file (the chunk loop, its carry-over and
+its slicing arithmetic cannot panic) -/
 theorem rpu_file_no_panic (c : Nat) (file : Bytes)
     (hnp : ∀ d, d <:+: file → RpuFile.parseNalu d ≠ .panic) : RpuFile.parseRpuFile c file ≠ .panic :=
   RpuFile.parseRpuFile_no_panic c file hnp
 
-/-- the ST 2094-10 ITU-T T.35 SEI parser (CM data with its pivot / polynomial / MMR / NLQ loops, DM data with a
-CM v2.9 container): panics only at the third-party exp-Golomb sites -/
+/-- (weaker, global-hypothesis version of `st2094_panic_only_at_ue`) the ST 2094-10 ITU-T T.35 SEI parser (CM
+data with its pivot / polynomial / MMR / NLQ loops, DM data with a CM v2.9 container): panics only at the
+third-party exp-Golomb sites -/
 theorem st2094_no_panic (data : Bytes)
     (hg : ∀ t, St2094.trim data = .ok t → Good (bytesToBits (Esc.unescape t))) : St2094.parse data ≠ .panic :=
   St2094.parse_no_panic data hg
+
+/-! ## positional version: for EVERY input, a panic is a panic of an exp-Golomb read at some position
+
+The `Good`-based theorems above assume that the input has no run of 63 zero bits ANYWHERE, which excludes
+practically every real RPU (an ordinary `vdr_dm_data` payload has `signal_eotf_param0/1/2 = 0`: 64 zero bits —
+`ordinary_not_Good`). The theorems below have no hypothesis on the input (tower in `Proofs/PanicSites.lean`). -/
+
+open Dovi.PanicSites
+
+/-- **`get_ue` panics exactly on 64 zero bits, a one, and at least 64 further bits** (`1 << 64`, KF-C08-ue64) -/
+theorem ue_site_exact (t : Bits) :
+    readUe t = .panic ↔ ∃ r, t = List.replicate 64 false ++ true :: r ∧ 64 ≤ r.length :=
+  readUe_panic_iff t
+
+/-- **`get_se` panics exactly when its `get_ue` does, or on an even code number `≥ 2^64 - 1024`** (KF-C08-se-min;
+NOT only the code `2^64 - 2` of `i64::MIN`: the detour through `f64` rounds `code + 1` up to `2^64` for all 512 of
+them, so `m = 2^63`, `m as i64 = i64::MIN` and the negation overflows) -/
+theorem se_site_exact (t : Bits) :
+    readSe t = .panic ↔
+      (readUe t = .panic ∨ ∃ code r, readUe t = .ok (code, r) ∧ code % 2 = 0 ∧ 2^64 - 1024 ≤ code) :=
+  readSe_panic_iff t
+
+/-- the same on the bit level: 63 zero bits, a one, 53 one bits, any 9 bits, a one -/
+theorem se_site_exact_bits (t : Bits) :
+    readSe t = .panic ↔
+      (readUe t = .panic ∨ ∃ m r, m.length = 9 ∧
+        t = List.replicate 63 false ++ true :: (List.replicate 53 true ++ m ++ true :: r)) :=
+  readSe_panic_bits t
+
+/-- **the RPU parser panics only while reading an exp-Golomb code with 64 leading zero bits (or an se(v) code
+that the `f64` detour maps to `i64::MIN`) at some position of the payload** — for EVERY input; in particular an
+input none of whose exp-Golomb fields has 64 leading zeros is parsed or rejected, never a panic -/
+theorem parse_panic_only_at_ue (data : Bytes) (h : parseRpu data = .panic) :
+    ∃ t, t <:+ bytesToBits (data.take (data.length - trailingZeroes data)) ∧ UePanic t :=
+  parseRpu_panic data h
+
+/-- the raw entry point `parse_rpu` (prefix trimming never panics) -/
+theorem parse_entry_panic_only_at_ue (data : Bytes) (h : parseRpuEntry data = .panic) :
+    ∃ b t, trimPrefix data = .ok b ∧ t <:+ bytesToBits (b.take (b.length - trailingZeroes b)) ∧ UePanic t :=
+  parseRpuEntry_panic data h
+
+/-- the HEVC NAL entry point: a suffix of the bits of the unescaped payload -/
+theorem nalu_panic_only_at_ue (d : Bytes) (h : parseNalu d = .panic) :
+    ∃ b t, trimPrefix d = .ok b ∧
+      t <:+ bytesToBits ((Esc.unescape b).take ((Esc.unescape b).length - trailingZeroes (Esc.unescape b))) ∧
+      UePanic t :=
+  parseNalu_panic d h
+
+/-- the AV1 T.35 OBU entry point: unwrapping never panics (`av1_unwrap_never_panics`), so a panic is one of the
+RPU parser on the unwrapped payload -/
+theorem av1_panic_only_at_ue (data : Bytes) (h : Av1.parseObu data = .panic) :
+    ∃ b t, Av1.unwrap data = .ok b ∧ t <:+ bytesToBits (b.take (b.length - trailingZeroes b)) ∧ UePanic t :=
+  parseObu_panic data h
+
+/-- the ST 2094-10 ITU-T T.35 SEI parser -/
+theorem st2094_panic_only_at_ue (data : Bytes) (h : St2094.parse data = .panic) :
+    ∃ b t, St2094.trim data = .ok b ∧ t <:+ bytesToBits (Esc.unescape b) ∧ UePanic t :=
+  PanicSites.St.parse_panic data h
+
+/-- the RPU file reader, every read chunk size: a panic is a panic of the NAL parser on a slice of the file … -/
+theorem rpu_file_panic_at_slice (c : Nat) (file : Bytes) (h : RpuFile.parseRpuFile c file = .panic) :
+    ∃ slice, slice <:+: file ∧ RpuFile.parseNalu slice = .panic :=
+  parseRpuFile_panic c file h
+
+/-- … hence an exp-Golomb panic at some position of the unescaped payload of a slice of the file -/
+theorem rpu_file_panic_only_at_ue (c : Nat) (file : Bytes) (h : RpuFile.parseRpuFile c file = .panic) :
+    ∃ slice b t, slice <:+: file ∧ trimPrefix slice = .ok b ∧
+      t <:+ bytesToBits ((Esc.unescape b).take ((Esc.unescape b).length - trailingZeroes (Esc.unescape b))) ∧
+      UePanic t := by
+  obtain ⟨slice, hs, hp⟩ := parseRpuFile_panic c file h
+  obtain ⟨b, t, h1, h2, h3⟩ := parseNalu_panic slice hp
+  exact ⟨slice, b, t, hs, h1, h2, h3⟩
+
+/-- contrapositive form: an input with no site is parsed or rejected -/
+theorem parse_no_panic_of_no_site (data : Bytes)
+    (h : ∀ t, t <:+ bytesToBits (data.take (data.length - trailingZeroes data)) → ¬ UePanic t) :
+    parseRpu data ≠ .panic := by
+  intro hp
+  obtain ⟨t, h1, h2⟩ := parse_panic_only_at_ue data hp
+  exact h t h1 h2
+
+/-- every site starts with 63 zero bits, so `Good` excludes all sites: the positional theorem implies the
+`Good`-based one (`parse_no_panic` is `parse_no_panic_of_no_site ∘ good_implies_no_site`) -/
+theorem good_implies_no_site (s : Bits) (hs : Good s) : ∀ t, t <:+ s → ¬ UePanic t :=
+  Good.no_site hs
+
+/-! ### non-vacuity on an ordinary RPU -/
+
+set_option maxRecDepth 1000000
+
+/-- the bytes written for the generator's profile 8.1 CM v4.0 RPU `C03.exRpu` -/
+def ordinaryBytes : Bytes :=
+  [25, 8, 9, 8, 64, 97, 54, 80, 111, 0, 63, 248, 1, 255, 192, 15, 255, 208, 0, 0, 8, 0, 0, 6, 128, 0, 0, 64, 0, 0, 52,
+   0, 0, 2, 0, 0, 1, 201, 89, 128, 0, 13, 122, 137, 89, 190, 127, 58, 199, 9, 89, 145, 50, 128, 0, 0, 64, 0, 0, 2, 0,
+   0, 0, 2, 0, 0, 0, 7, 13, 136, 144, 192, 97, 130, 151, 140, 35, 129, 69, 0, 0, 0, 105, 143, 150, 191, 255, 192, 0, 0,
+   0, 0, 0, 0, 0, 24, 8, 3, 224, 56, 84, 192, 16, 10, 0, 0, 0, 0, 0, 0, 0, 36, 24, 15, 160, 0, 4, 15, 160, 6, 64, 128,
+   65, 32, 5, 11, 1, 16, 0, 0, 127, 192, 0, 64, 70, 18, 179, 106, 128]
+
+theorem ordinaryBytes_eq : C03.exBytes = ordinaryBytes := by decide +kernel
+
+/-- the ordinary RPU is accepted … -/
+theorem ordinary_parses : (parseRpu ordinaryBytes).isOk = true := by decide +kernel
+
+/-- … although its bits are NOT `Good` (64 zero bits of `signal_eotf_param0/1/2`): the `Good`-based theorems say
+nothing about it -/
+theorem ordinary_not_Good :
+    ¬ Good (bytesToBits (ordinaryBytes.take (ordinaryBytes.length - trailingZeroes ordinaryBytes))) := by
+  decide +kernel
+
+/-- it even contains a position (bit 699, inside the zero `signal_eotf_param`s) where an exp-Golomb read WOULD
+panic — harmless, because no exp-Golomb code is read there: what matters is where the parser reads, which is why
+no decidable "site-free" condition on the raw bits is offered -/
+example : ∃ t, t <:+ bytesToBits ordinaryBytes ∧ UePanic t :=
+  ⟨(bytesToBits ordinaryBytes).drop 699, List.drop_suffix _ _, Or.inl (by decide +kernel)⟩
+
+/-- the ordinary RPU with 64 zero bits inserted in front of its `vdr_rpu_id` ue(v) code (bit 68) -/
+def mutatedBytes : Bytes :=
+  [25, 8, 9, 8, 64, 97, 54, 80, 96, 0, 0, 0, 0, 0, 0, 0, 15, 0, 63, 248, 1, 255, 192, 15, 255, 208, 0, 0, 8, 0, 0, 6,
+   128, 0, 0, 64, 0, 0, 52, 0, 0, 2, 0, 0, 1, 201, 89, 128, 0, 13, 122, 137, 89, 190, 127, 58, 199, 9, 89, 145, 50, 128,
+   0, 0, 64, 0, 0, 2, 0, 0, 0, 2, 0, 0, 0, 7, 13, 136, 144, 192, 97, 130, 151, 140, 35, 129, 69, 0, 0, 0, 105, 143,
+   150, 191, 255, 192, 0, 0, 0, 0, 0, 0, 0, 24, 8, 3, 224, 56, 84, 192, 16, 10, 0, 0, 0, 0, 0, 0, 0, 36, 24, 15, 160,
+   0, 4, 15, 160, 6, 64, 128, 65, 32, 5, 11, 1, 16, 0, 0, 127, 192, 0, 64, 70, 18, 179, 106, 128]
+
+theorem mutatedBytes_eq :
+    mutatedBytes = bitsToBytes ((bytesToBits ordinaryBytes).take 68 ++ List.replicate 64 false ++
+      (bytesToBits ordinaryBytes).drop 68) := by decide +kernel
+
+/-- the hypothesis of `parse_panic_only_at_ue` is satisfiable: the mutated RPU does panic … -/
+theorem mutated_panics : parseRpu mutatedBytes = .panic := by decide +kernel
+
+/-- … and the witness the theorem promises is the position of the mutated field: `get_ue` panics on the suffix
+starting at bit 68 -/
+example : ∃ t, t <:+ bytesToBits (mutatedBytes.take (mutatedBytes.length - trailingZeroes mutatedBytes)) ∧
+    readUe t = .panic :=
+  ⟨(bytesToBits (mutatedBytes.take (mutatedBytes.length - trailingZeroes mutatedBytes))).drop 68,
+   List.drop_suffix _ _, by decide +kernel⟩
+
+/-- the `se(v)` site is wider than the single code of `i64::MIN`: code number `2^64 - 1024` (63 zeros, a one,
+53 ones, nine zeros, a one) panics in `get_se` as well, while `get_ue` returns it -/
+example : readSe (List.replicate 63 false ++ true :: (List.replicate 53 true ++ List.replicate 9 false ++ [true]))
+      = .panic ∧
+    readUe (List.replicate 63 false ++ true :: (List.replicate 53 true ++ List.replicate 9 false ++ [true]))
+      = .ok (2^64 - 1024, []) := by
+  constructor <;> decide +kernel
 
 end Dovi.C08
